@@ -30,6 +30,10 @@ def scenario(seed, si):
     op = OPS[si % len(OPS)]
     names = ["plain", fsd(b"sp ace"), fsd(b"q'uote"), fsd(b"nl\nname"), fsd(b"\xffbad"), fsd("ż😀".encode()), fsd(b"dol$lar"),
              fsd(b"trail "), fsd(b"-dash"), fsd(b"back\\slash")]
+    if si % 3 == 1:
+        # names at the NAME_MAX (255 bytes) boundary; a one-digit counter is appended below. The temporary sibling
+        # (name + "." + 24 characters) of the longer ones cannot exist
+        names += ["L" * 254, "M" * 229, "N" * 230]
     r.shuffle(names)
     entries = [{"t": "d", "p": "r0"}, {"t": "d", "p": "r0/sub dir"}]
     ngroups = r.choice([1, 2])
